@@ -38,7 +38,7 @@ def classify_for(prop):
     return classify
 
 
-def ledger_config(prop, props_files, manifest, profile="mix", quick=60, thorough=1500, extra=None):
+def ledger_config(prop, props_files, manifest, profile="mix", quick=60, thorough=1000, extra=None):
     cfg = dict(
         prop=prop, ready=True, harness="ledger", driver="drv_ledger",
         props_files=props_files, model_files=LEDGER_MODEL, translators=[],
